@@ -11,7 +11,7 @@ ID = "C03"
 LEVEL = "fault_enumeration"
 RULE = ("for authentic reference-built packets of chosen frame lengths: every single-bit flip at every bit position, every "
         "truncation length 0..n-1, all 255 substitutions of each start-marker / length-field byte, a catalogue of 16-bit length values (alone and with a corrupted payload byte), single-byte substitutions, random multi-byte corruptions, fed to _Packet.decode (and a sample "
-        "through LAN.send with the simulated device sending the corrupted packet, on V2 connections and tunnelled inside correctly tagged V3 encrypted responses). Outcome classes: ProtocolError (required), "
+        "through LAN.send with the simulated device sending the corrupted packet, on V2 connections and tunnelled inside correctly tagged V3 encrypted responses). The authentic packet itself is accepted first and again every three corruptions (a receiver that remembers what it verified must still reject altered copies). Outcome classes: ProtocolError (required), "
         "frame returned / other exception (violation). A corruption the reference still accepts as authentic is skipped and counted. "
         "distinct = (frame length, fault kind, position, value); all are non-trivial (the packet differs from an authentic one)")
 ASSUMPTIONS = ["a corruption producing a valid keyed MD5 by chance is skipped (none observed)",
@@ -56,8 +56,28 @@ def generate(ctx, rng):
                             "version": 2 if j % 2 else 3}
 
 
+_since_authentic = [0]
+
+
+def _accept_authentic(ctx, case, orig_frame, pkt):
+    """The authentic packet is accepted first (and again every few corruptions): a receiver that remembers what it has
+    verified must still reject an altered copy that arrives afterwards."""
+    try:
+        got = _Packet.decode(pkt)
+    except Exception as e:  # noqa: BLE001
+        ctx.violation("authentic-rejected", f"authentic packet rejected: {type(e).__name__}: {e}", case, {"packet": pkt})
+        return
+    if bytes(got) != orig_frame:
+        ctx.violation("authentic-mis-decoded", "authentic packet decoded to a different frame", case, {"packet": pkt})
+    ctx.bump("authentic-accepted-before-corruptions")
+
+
 def _judge(ctx, case, orig_frame, pkt, corrupted, what):
     """Decode one corrupted packet and classify the outcome."""
+    _since_authentic[0] += 1
+    if _since_authentic[0] >= 3:
+        _since_authentic[0] = 0
+        _accept_authentic(ctx, case, orig_frame, pkt)
     if v2.is_authentic(corrupted):
         ctx.skip("corruption-still-authentic")
         return
@@ -88,7 +108,9 @@ def run_case(ctx, case):
     fault = case["fault"]
     if ctx.evaluations == 0 or fault == "bitflips" and len(frame) == 17:
         ctx.count(None, nontrivial=False, kind="sample-holder", sample={"fault": fault, "frame_len": len(frame), "packet": pkt})
-    only = case.get("only")   # replay of one specific fault
+    if fault != "wire":
+        _accept_authentic(ctx, case, frame, pkt)
+        _since_authentic[0] = 0
     if fault == "bitflips":
         for pos in range(len(pkt)):
             for bit in range(8):
@@ -180,10 +202,27 @@ def _wire(ctx, case, frame, pkt):
     else:
         dev.on_exchange = lambda conn, req, packets, meta: [(0, corrupted)]
 
+    first = {"n": 0}
+    corrupt_hook = dev.on_exchange
+
+    def on_exchange(conn, req, packets, meta):
+        first["n"] += 1
+        if first["n"] == 1 and case["mseed"] % 2 == 0:
+            # the authentic packet is delivered (and accepted) first, its altered copy on the next exchange
+            good = pkt if version == 2 else __import__("mv.ref.v3", fromlist=["x"]).build_encrypted(conn.skey, pkt, 3, 3)
+            return [(0, good)]
+        return corrupt_hook(conn, req, packets, meta)
+
+    dev.on_exchange = on_exchange
+
     async def go(loop):
         lan = LAN(dev.host, dev.port, case["id"])
         if version == 3:
             await lan.authenticate(token, aes_key)
+        if case["mseed"] % 2 == 0:
+            ok = await lan.send(b"\xaa\x0b\xac" + bytes(8))
+            if [bytes(x) for x in ok] != [frame]:
+                raise AssertionError("authentic packet not accepted in the wire case")
         return await lan.send(b"\xaa\x0b\xac" + bytes(8))
 
     key = (len(frame), ("wire", k, case["mseed"], version))
